@@ -33,7 +33,7 @@ func (u *UseCase) Set(ctx context.Context, key string, content io.Reader) error 
 
 	var (
 		minSize uint64
-		closer  io.Closer
+		closers []io.Closer
 	)
 	// the random source is shared by all concurrent Sets and is not goroutine safe
 	u.randM.Lock()
@@ -54,11 +54,9 @@ func (u *UseCase) Set(ctx context.Context, key string, content io.Reader) error 
 		if err != nil {
 			var errNotEnoughSpace model.NotEnoughSpaceError
 			if errors.As(err, &errNotEnoughSpace) {
-				if closer != nil {
-					closer.Close()
-				}
-
-				closer = errNotEnoughSpace
+				// the rest of the content may still read from the earlier partial files:
+				// they stay open until the write has finished
+				closers = append(closers, errNotEnoughSpace)
 				content = errNotEnoughSpace.Reader()
 				minSize = dir.Free
 				continue
@@ -70,7 +68,7 @@ func (u *UseCase) Set(ctx context.Context, key string, content io.Reader) error 
 		break
 	}
 
-	if closer != nil {
+	for _, closer := range closers {
 		closer.Close()
 	}
 
